@@ -29,6 +29,7 @@ struct Exec {
 
 static r1::cancellation_disseminator* dissem() { return r1::threading_control::g_threading_control->my_pimpl->my_cancellation_disseminator.get(); }
 
+static bool BINDG = false;      // C is bound under the parentless context G (the branch of bind_to_impl without grand-ancestors)
 static void bind_under(Ctx& c, Ctx* parent, r1::thread_data* td) {
     auto& ed = td->my_task_dispatcher->m_execute_data_ext; auto* save = ed.context;
     if (parent) ed.context = parent;
@@ -48,8 +49,8 @@ static void body(Exec& E, int id) {
     yield_point();                                               // ---- end of set-up phase
     if (role == "X") { while (__atomic_load_n(&E.remaining, __ATOMIC_SEQ_CST) > 0) yield_point(); return; }
     if (role == "B") {
-        bind_under(*E.C, E.P, td);
-        TR.emit("{\"e\":\"Bound\",\"c\":\"C\",\"p\":\"%s\"}", E.C->my_parent == E.P ? "P" : "none");
+        bind_under(*E.C, BINDG ? E.G : E.P, td);
+        TR.emit("{\"e\":\"Bound\",\"c\":\"C\",\"p\":\"%s\"}", E.C->my_parent == E.P ? "P" : E.C->my_parent == E.G ? "G" : "none");
     } else {
         const std::string& t = TGT[role];
         bool r = E.ctx(t)->cancel_group_execution();
@@ -120,6 +121,7 @@ static void teardown(Exec& E, Sched& S, int rc) {
 
 int main(int argc, char** argv) {
     if (argc < 2) return 2;
+    for (int i = 1; i < argc; i++) if (std::string(argv[i]) == "bindG") BINDG = true;
     std::string mode = argv[1];
     tbb::task_scheduler_handle keep{tbb::attach{}};               // keeps threading_control alive across executions
     vh::install_tbb_thread_exit();
@@ -144,7 +146,14 @@ int main(int argc, char** argv) {
         }
         int rc = S.finish(2000000);
         TR.open("/dev/null"); teardown(E, S, rc);
-        printf("{\"propagator_locks_pm\":%d,\"hint_store_seq_cst\":%d}\n", pm_rmw > 0 ? 1 : 0, hint_order == (int)std::memory_order_seq_cst ? 1 : 0);
+        // third fact: binding under a parentless context whose cancellation flag is clear - does the binder STORE into the new context's flag (a stale zero that can
+        // overwrite a cancellation propagated in between) or leave it alone?
+        int root_store = 0;
+        { BINDG = true; ORDER = {"A1", "B", "X"}; TGT["A1"] = "S"; Exec E2; Sched S2; setup(E2, S2, false); int b2 = E2.lt["B"];
+          for (long k = 0; k < 100000 && !S2.done(b2); k++) { if (!S2.runnable(b2)) break; Pending p = S2.pending(b2);
+              if (p.addr == (const void*)&E2.C->my_cancellation_requested && (p.kind == K_STORE || p.kind == K_RMW || p.kind == K_CAS)) ++root_store; S2.step(b2); }
+          int rc2 = S2.finish(2000000); teardown(E2, S2, rc2); BINDG = false; }
+        printf("{\"propagator_locks_pm\":%d,\"hint_store_seq_cst\":%d,\"root_copy_always\":%d}\n", pm_rmw > 0 ? 1 : 0, hint_order == (int)std::memory_order_seq_cst ? 1 : 0, root_store > 0 ? 1 : 0);
         return 0;
     }
     if (mode == "sched") {   // h_ctx sched "<thread ids>" <trace-out> <order> <targets> [tso] : follow a recorded schedule verbosely
